@@ -261,7 +261,7 @@ func Mutate(t *rapid.T, root *Node, typeNames []string) []string {
 
 		s := sl[rapid.IntRange(0, len(sl)-1).Draw(t, "slot")]
 		cur := s.parent.Members[s.index]
-		kind := rapid.SampledFrom([]string{"replace-kind", "replace-kind", "replace-kind", "delete", "duplicate-key", "unknown-type", "unknown-field", "null-element", "deep-nest", "swap-type", "edit-string", "edit-string", "link-object", "repeat-elements"}).Draw(t, "mutation")
+		kind := rapid.SampledFrom([]string{"replace-kind", "replace-kind", "replace-kind", "delete", "duplicate-key", "unknown-type", "unknown-field", "null-element", "deep-nest", "swap-type", "edit-string", "edit-string", "link-object", "repeat-elements", "member-case"}).Draw(t, "mutation")
 
 		switch kind {
 		case "replace-kind":
@@ -305,6 +305,21 @@ func Mutate(t *rapid.T, root *Node, typeNames []string) []string {
 
 			if !found {
 				continue
+			}
+		case "member-case":
+			// the name of a member in another letter case (encoding/json
+			// matches the members of a struct without regard to it)
+			if s.parent.Kind != "object" || s.key == "" {
+				continue
+			}
+
+			switch rapid.IntRange(0, 2).Draw(t, "member-case-form") {
+			case 0:
+				s.parent.Keys[s.index] = strings.ToUpper(s.key)
+			case 1:
+				s.parent.Keys[s.index] = strings.ToUpper(s.key[:1]) + s.key[1:]
+			default:
+				s.parent.Keys[s.index] = strings.ReplaceAll(strings.ReplaceAll(s.key, "s", "ſ"), "k", "\u212a")
 			}
 		case "unknown-field":
 			if cur.Kind != "object" {
